@@ -1,4 +1,6 @@
 """Replay hierarchies of spec/Inherit.tla: build the classes for real and compare every slot."""
+import inspect
+
 from harness.core import import_param
 
 param = import_param()
@@ -76,10 +78,22 @@ def replay(beh, opts):
                     cls = type(c, pbases, {"x": make_param(d)})
                 else:
                     cls = type(c, pbases, {})
+                    before = (cls.x, inspect.getattr_static(cls, "x")) if hasattr(cls, "x") else None
+                    cls.param.values()
                     cls.param.add_parameter("x", make_param(d))
                 raised = None
             except Exception as ex:  # noqa: class creation wraps validation errors in RuntimeError
                 raised = ex
+                if mode == "add_parameter" and d["ty"] != "absent":
+                    # a refused add_parameter leaves the class as it was: no class may exist whose
+                    # Parameter contradicts its own constraints
+                    after = (cls.x, inspect.getattr_static(cls, "x")) if hasattr(cls, "x") else None
+                    if (before is None) != (after is None) or (before is not None and (before[1] is not after[1] or before[0] != after[0])):
+                        return fail("failed_add_leaves_parameter", "add_parameter on %s raised %s but left %s.x = %r governed by %r (before: %r)"
+                                    % (c, type(ex).__name__, c, after and after[0], after and after[1], before))
+                    if before is not None and (cls.param["x"] is not before[1] or cls.param["x"].default != before[0]):
+                        return fail("failed_add_leaves_parameter", "add_parameter on %s raised but %s.param['x'] is now %r (default %r), attribute access gives %r"
+                                    % (c, c, cls.param["x"], cls.param["x"].default, cls.x))
             if d["ty"] == "absent":
                 if raised is not None:
                     return fail("raised", "creating %s (no declaration) raised %r" % (c, raised))
